@@ -29,7 +29,7 @@ class C07(P.Property):
     real_stub = dict(deployment="as C09; additionally the scheme API is called directly (local branch) on the same inputs")
     assumptions = ["a setup or search that raises ends that branch without a verdict (after checking that the inputs are intact)"]
     probe_names = ["scheme_" + s for s in fe.SCHEMES] + ["local_branch", "server_branch", "multi_connection", "repeat_keyword", "absent_keyword",
-                                                          "server_index_compared", "nondefault_config", "decoy_service", "stored_key"]
+                                                          "server_index_compared", "nondefault_config", "decoy_service", "stored_key", "scheme_object_reused"]
 
     def setup(self):
         world.setup_frontend()
@@ -55,7 +55,7 @@ class C07(P.Property):
         cuts = sorted(rng.sample(range(1, n), min(ncon - 1, n - 1))) if ncon > 1 else []
         knobs = dict(scheme=scheme, cfg_index=ci, db=db, cuts=cuts, gap=rng.choice([0, 0.5, 1.5]), sse2_spare=rng.choice([0, 3, 10]),
                      net=rng.choice([dict(lo=0.001, hi=0.05), dict(lo=0.001, hi=0.05, seg=3), dict(lo=0.0005, hi=0.004)]),
-                     skew=rng.choice([1.0, 1.0, 2.0]), bufsize=8192, decoy=rng.random() < 0.3, stored_key=rng.choice([None, None, 0, 1, 2]))
+                     skew=rng.choice([1.0, 1.0, 2.0]), bufsize=8192, decoy=rng.random() < 0.3, stored_key=rng.choice([None, None, 0, 1, 2]), reuse_scheme=rng.random() < 0.4)
         return {"property": "C07", "seed": seed, "knobs": knobs, "steps": steps}
 
     def execute(self, plan):
@@ -131,6 +131,16 @@ class C07(P.Property):
             if K is None:
                 K = S.KeyGen()
             kser = K.serialize()
+            if plan["knobs"].get("reuse_scheme"):
+                # the same scheme object and key served another index before (same keywords, other identifiers); that index is
+                # dropped and collected before the index under test is built -- its answers must not come back
+                probes["scheme_object_reused"] = 1
+                other = {w: [bytes([b ^ 0x5A for b in i[:-1]]) + bytes([i[-1] ^ 0x01 or 0x02]) for i in ids] for w, ids in db.items()}
+                Ed = S.EDBSetup(K, copy.deepcopy(other))
+                for w in list(other)[:6]:
+                    S.Search(Ed, S.TokenGen(K, w)).get_result_list()
+                del Ed
+                world.gc_point()
             E = S.EDBSetup(K, db)
         except Exception as e:
             out["inconclusive"] = f"setup refused ({type(e).__name__})"
@@ -179,6 +189,21 @@ class C07(P.Property):
                 return
         if E.serialize() != ser0:
             viol.append(V("C07.edb", "INPUT_MUTATED", "the encrypted database object changed during the search history (serialization differs)", site="local-edb"))
+        if not viol and not out.get("inconclusive"):
+            # the same history once more on an index that was loaded from its serialized form, keeping every result alive
+            E2 = pristine()
+            ser2 = E2.serialize()
+            kept = []
+            try:
+                for st in plan["steps"]:
+                    kept.append(S.Search(E2, S.TokenGen(K, st["w"].encode("utf-8"))))
+            except Exception as e:
+                out["inconclusive"] = f"search on a deserialized index raised {type(e).__name__}"
+            else:
+                if E2.serialize() != ser2:
+                    viol.append(V("C07.edb", "INPUT_MUTATED", "the serialization of an index loaded from bytes changed during the search history "
+                                                              "(results kept alive)", site="local-edb-deserialized"))
+            del kept
         if K.serialize() != kser:
             viol.append(V("C07.inputs", "INPUT_MUTATED", "the key changed during the search history", site="key"))
 
@@ -280,7 +305,7 @@ class C07(P.Property):
 
     def simplifications(self, plan):
         k = plan["knobs"]
-        for key, val in (("skew", 1.0), ("net", dict(lo=0.01, hi=0.01)), ("cuts", []), ("gap", 0), ("cfg_index", 0), ("decoy", False), ("stored_key", None)):
+        for key, val in (("skew", 1.0), ("net", dict(lo=0.01, hi=0.01)), ("cuts", []), ("gap", 0), ("cfg_index", 0), ("decoy", False), ("stored_key", None), ("reuse_scheme", False)):
             if k.get(key) != val:
                 yield dict(plan, knobs=dict(k, **{key: val}))
         db = k["db"]
